@@ -203,6 +203,12 @@ func cmdCheck(args []string) int {
 		}
 		fmt.Printf("warning: contract file skipped or partly ignored (not part of %s): %s\n", *prop, e)
 	}
+	P.NoAssume = map[string]bool{}
+	for _, k := range loadKnown(*known) {
+		if k.Kind == "finding" {
+			P.NoAssume[k.Obl] = true
+		}
+	}
 	tLoad := time.Since(t0).Seconds()
 	scratch := *dump
 	if scratch == "" {
